@@ -14,6 +14,8 @@ from __future__ import annotations
 import itertools
 from fractions import Fraction
 
+import math
+
 import numpy as np
 
 import common as C
@@ -845,7 +847,12 @@ def _num(x):
         return "bool:" + str(bool(x))
     if isinstance(x, (int, np.integer)):
         return C.rat(int(x))
-    return C.rat(float(x))
+    x = float(x)
+    if not math.isfinite(x):
+        # a cell the implementation reports as NaN / inf (no generated matrix holds one): kept as a token that equals no number, so
+        # that it shows as a value that is not the source's, instead of stopping the harness
+        return "nonfinite:" + repr(x)
+    return C.rat(x)
 
 
 def snapshot(dm):
@@ -1014,7 +1021,7 @@ SIX = ("alts", "crits", "objs", "wts", "dts", "cells")
 
 
 def _fr(x):
-    return C.frac(x) if isinstance(x, str) and not x.startswith("bool:") else x
+    return C.frac(x) if isinstance(x, str) and not x.startswith(("bool:", "nonfinite:")) else x
 
 
 def _same_six(a, b):
